@@ -3,6 +3,7 @@ package props
 import (
 	"context"
 	"fmt"
+	"strings"
 	"sync"
 	"sync/atomic"
 	"time"
@@ -31,6 +32,14 @@ type c06Case struct {
 	Timeout  time.Duration // CloseTimeout
 	Repeat   bool          // call Close once more afterwards
 	Panics   bool          // the handler of m1 panics when it is released (the router recovers it and Nacks)
+	Conf     bool          // conformance run: internal hook events are recorded as well (RouterLifecycleImplTrace)
+}
+
+var c06ConfHooks = map[string]string{
+	"router.runhandlers.started": "rh", "decorator.sub.before_out": "pump", "decorator.sub.closed": "pump",
+	"router.run.received": "loop", "router.run.dispatched": "loop", "router.handle.start": "msg",
+	"router.handleclose.before_select": "hc", "router.run.closed_seen": "run", "router.close.signalled": "closer",
+	"router.close.handlers_wait_done": "w", "router.close.running_wait_done": "w",
 }
 
 // slowLogger delays Error(): the router logs a recovered panic before it Nacks the message
@@ -90,23 +99,46 @@ func runC06(c *Ctx) error {
 		cases = append(cases, c06Case{Class: "random/" + src, Source: src, Label: c06Labels[c.Rng.Intn(len(c06Labels))], Second: c.Rng.Intn(3) == 0,
 			Closers: 1 + c.Rng.Intn(3), Handlers: 1 + c.Rng.Intn(3), Msgs: 1 + c.Rng.Intn(3), Timeout: 3 * time.Second, Repeat: c.Rng.Intn(3) == 0})
 	}
+	// conformance of the implementation-shaped model: fixed shape (1 handler, scripted source, 2 messages, <= 2 closers)
+	nconf := c.Pick(24, 400)
+	for i := 0; i < nconf; i++ {
+		lb := append([]string{""}, c06Labels...)[c.Rng.Intn(len(c06Labels)+1)]
+		cases = append(cases, c06Case{Class: "conformance", Source: "scripted", Label: lb, Second: c.Rng.Intn(4) == 0, Closers: 1 + c.Rng.Intn(2), Handlers: 1, Msgs: 2,
+			Timeout: 3 * time.Second, Conf: true})
+	}
+	TC := c.Trace("RouterLifecycleImplTrace")
 	runs := make([]*tr.Run, len(cases))
+	confRuns := make([]*tr.Run, len(cases))
 	for i, cs := range cases {
 		runs[i] = T.NewRun(cs.Class, map[string]any{"nh": cs.Handlers, "expectsubclose": true, "timeout": int64(cs.Timeout / time.Microsecond)})
-		runs[i].Key = fmt.Sprintf("%+v", cs)
+		runs[i].Key = fmt.Sprintf("%+v/%d", cs, i)
+		if cs.Conf {
+			confRuns[i] = TC.NewRun("conformance", nil)
+			confRuns[i].Key = fmt.Sprintf("conf/%d", i)
+			confRuns[i].NonTrivial = true
+		}
 	}
 	var reached int64
 	Parallel(len(cases), func(i int) {
-		if c06Run(runs[i], cases[i]) {
+		if c06RunC(runs[i], confRuns[i], cases[i]) {
 			atomic.AddInt64(&reached, 1)
 		}
 	})
+	c.AddStat("conformance_runs", nconf)
 	c.AddStat("cases", len(cases))
 	c.AddStat("gates_reached", int(reached))
 	return nil
 }
 
-func c06Run(r *tr.Run, cs c06Case) (gateReached bool) {
+func c06Run(r *tr.Run, cs c06Case) (gateReached bool) { return c06RunC(r, nil, cs) }
+
+func c06RunC(r *tr.Run, rc *tr.Run, cs c06Case) (gateReached bool) {
+	emitC := func(e string, kv ...any) {
+		if rc != nil {
+			rc.Emit(e, kv...)
+		}
+	}
+	defer emitC("end")
 	t0 := time.Now()
 	now := func() int64 { return int64(time.Since(t0) / time.Microsecond) }
 	prefix := fmt.Sprintf("r%d-", r.ID)
@@ -115,6 +147,20 @@ func c06Run(r *tr.Run, cs c06Case) (gateReached bool) {
 		logger = slowLogger{}
 	}
 	router, _ := message.NewRouter(message.RouterConfig{CloseTimeout: cs.Timeout}, logger)
+	if rc != nil {
+		onHook := func(point string, ids []string) {
+			g, ok := c06ConfHooks[point]
+			if !ok {
+				return
+			}
+			if g == "msg" {
+				g = strings.TrimPrefix(ids[0], prefix)
+			}
+			rc.Emit("hook", "g", g, "point", point)
+		}
+		defer sched.Observe(prefix, onHook)()
+		defer sched.ObserveID(verifhook.Ptr(router), onHook)()
+	}
 	var mu sync.Mutex
 	objs := map[string]*message.Message{} // message object as seen by the router (scripted: the emitted one; gochannel: the delivered copy)
 	emitted := []string{}
@@ -140,7 +186,13 @@ func c06Run(r *tr.Run, cs c06Case) (gateReached bool) {
 		gc = gochannel.NewGoChannel(gochannel.Config{}, nil)
 	}
 	subs := []*scripted.Sub{}
-	m1 := prefix + "h1m1"
+	mname := func(h, k int) string {
+		if cs.Conf {
+			return fmt.Sprintf("m%d", k)
+		}
+		return fmt.Sprintf("h%dm%d", h, k)
+	}
+	m1 := prefix + mname(1, 1)
 	for h := 1; h <= cs.Handlers; h++ {
 		h := h
 		hname := fmt.Sprintf("%sh%d", prefix, h)
@@ -161,10 +213,12 @@ func c06Run(r *tr.Run, cs c06Case) (gateReached bool) {
 			objs[m] = msg
 			mu.Unlock()
 			r.Emit("hstart", "m", m)
+			emitC("hstart", "m", m)
 			if cs.Label == "handler" && msg.UUID == m1 {
 				<-release
 			}
 			r.Emit("hend", "m", m)
+			emitC("hend", "m", m)
 			if cs.Panics && msg.UUID == m1 {
 				panic("scripted handler panic")
 			}
@@ -178,6 +232,7 @@ func c06Run(r *tr.Run, cs c06Case) (gateReached bool) {
 		defer close(runDone)
 		err := router.Run(verifhook.WithName(ctx, prefix+"run"))
 		r.Emit("runret", "ok", err == nil, "t", now(), "states", states())
+		emitC("runret")
 	}()
 	select {
 	case <-router.Running():
@@ -201,7 +256,7 @@ func c06Run(r *tr.Run, cs c06Case) (gateReached bool) {
 			if h > 1 && k > 1 {
 				continue
 			}
-			m := fmt.Sprintf("h%dm%d", h, k)
+			m := mname(h, k)
 			msg := message.NewMessage(prefix+m, []byte("x"))
 			mu.Lock()
 			emitted = append(emitted, m)
@@ -210,6 +265,7 @@ func c06Run(r *tr.Run, cs c06Case) (gateReached bool) {
 			}
 			mu.Unlock()
 			r.Emit("emit", "m", m)
+			emitC("emit", "m", m)
 			ew.Add(1)
 			go func(h int, msg *message.Message) {
 				defer ew.Done()
@@ -227,7 +283,7 @@ func c06Run(r *tr.Run, cs c06Case) (gateReached bool) {
 					deadline := time.Now().Add(300 * time.Millisecond)
 					for time.Now().Before(deadline) {
 						mu.Lock()
-						_, ok := objs["h1m1"]
+						_, ok := objs[mname(1, 1)]
 						if cs.Source == "scripted" {
 							ok = false
 						}
@@ -250,6 +306,7 @@ func c06Run(r *tr.Run, cs c06Case) (gateReached bool) {
 	closeCall := func(i string) {
 		defer cw.Done()
 		r.Emit("closecall", "i", i, "t", now())
+		emitC("closecall", "c", i)
 		var err error
 		p, v := Guarded(func() { err = router.Close() })
 		if p {
@@ -257,6 +314,7 @@ func c06Run(r *tr.Run, cs c06Case) (gateReached bool) {
 			return
 		}
 		r.Emit("closeret", "i", i, "ok", err == nil, "t", now(), "states", states())
+		emitC("closeret", "c", i, "ok", err == nil)
 		retOnce.Do(func() { close(anyRet) })
 	}
 	for i := 0; i < cs.Closers; i++ {
